@@ -165,7 +165,8 @@ PROPS = {
                 gen=[dict(bag="api", depth=18, quick=150, thorough=2500),
                      dict(bag="time", depth=16, quick=120, thorough=2000),
                      dict(bag="inv", depth=18, quick=120, thorough=2000),
-                     dict(bag="slowprog", depth=14, quick=100, thorough=1500)]),
+                     dict(bag="slowprog", depth=14, quick=100, thorough=1500),
+                     dict(bag="callp", depth=14, quick=100, thorough=1500)]),
     "C17": dict(family="client", hostile_enum=True,
                 conc=dict(inv=["OwnReply", "AtMostOnce", "NoLeftover"], props=["CloseReturns", "ApisReturn", "RunMovesOn"],
                           quick=dict(napi=2, nreplies=2), thorough=dict(napi=3, nreplies=2),
